@@ -124,9 +124,13 @@ def run_model(drv, case):
                         out_stride=case.get("row_stride", 499))
         m["is2D"] = True
         return m
+    mi = su.model_init(case)
+    if mi is not None:
+        return mi
     rec = su.record_inputs(case)
     if rec.get("raise"):
-        return {"raise": rec["raise"], "stage": "init"}
+        # the rule says this case constructs; the model cannot echo the implementation
+        return {"raise": None, "stage": "init", "no_constants": rec["raise"]}
     progs = su.programs(case)
     out = {"single": None, "seq": None}
     if case.get("Nrep"):
@@ -238,8 +242,9 @@ def compare(case, impl, model):
     dis = []
     if model is None:
         return dis
-    if impl.get("raise"):
-        return [] if impl["raise"] == model.get("raise") else [f"init exception: impl {impl['raise']}"]
+    if impl.get("raise") or model.get("stage") == "init":
+        return [] if (impl.get("raise") or None) == (model.get("raise") or None) else \
+            [f"init exception: impl {impl.get('raise')} vs rule {model.get('raise')}"]
     if model.get("is2D"):
         run = impl["runs"][0]
         dis = su.compare_2d(case, run, model, arrays=True)
@@ -366,7 +371,10 @@ def _check_complete_run(case, prog, impl, run, site, out):
                            detail=f"{len(time)} rows, stride arithmetic gives {len(steps)} (n={n}, i_end={i_end})"))
         return
     if len(prof) != n:
-        return  # C05's business
+        out.append(Failure(clause="history_aligned", key=f"programme_length|{site}|",
+                           detail=f"tempProfile(dt) has {len(prof)} samples but the process has n = {n} steps: the time "
+                                  f"grid and t_sol clauses cannot be evaluated"))
+        return
     for j, st in enumerate(steps):
         if not close(time[j] * 3600.0, dt * st, rtol=1e-9) and abs(time[j] * 3600 - dt * st) > 1e-9:
             out.append(Failure(clause="history_aligned", key=f"time_is_dt_step|{site}|",
@@ -441,7 +449,7 @@ def _check_table(case, prog, impl, run, site, out):
 
 
 def predicates(case, impl):
-    out = []
+    out = su.init_failures(case, impl, Failure)
     if impl.get("raise") or not impl.get("runs"):
         return out
     site = f"_run_{case['dim']}"
